@@ -262,6 +262,7 @@ def pathEq (f1 : Bool) (b1 : Bytes) (f2 : Bool) (b2 : Bytes) : Outcome Bool :=
 inductive HW where
   | u8 (n : Nat)
   | u32 (n : Nat)
+  | len (n : Nat)        -- `write_length_prefix` of a `Vec` (a `write_usize`)
   deriving Repr, DecidableEq
 
 /-- mirrors aspath.rs:996 `Hash for Segment` -/
@@ -289,17 +290,62 @@ def hashKey (four : Bool) (bs : Bytes) : Outcome (List HW) :=
   | .err => .err
   | .panic => .panic
 
+/-- mirrors aspath.rs:1135 `Hash for Hop`: `write_u8(0)` + the `Asn` (a `u32`
+newtype deriving `Hash`: one `write_u32`) | `write_u8(1)` + `Segment::hash`. -/
+def Hop.hashKey : Hop → Outcome (List HW)
+  | .asn n => .ok [HW.u8 0, HW.u32 n]
+  | .seg s =>
+    match s.hashKey with
+    | .ok k => .ok (HW.u8 1 :: k)
+    | _ => .panic
+
+def hopsHashKey : List Hop → Outcome (List HW)
+  | [] => .ok []
+  | x :: r =>
+    match x.hashKey with
+    | .ok a =>
+      match hopsHashKey r with
+      | .ok b => .ok (a ++ b)
+      | .err => .err
+      | .panic => .panic
+    | _ => .panic
+
+/-- the derived `Hash for HopPath` (aspath.rs:65): the `Vec<Hop>`'s length
+prefix, then every hop. -/
+def hopPathHashKey (h : HopPath) : Outcome (List HW) :=
+  match hopsHashKey h with
+  | .ok k => .ok (HW.len h.length :: k)
+  | .err => .err
+  | .panic => .panic
+
 /-- mirrors aspath.rs:106 `hop_count` -/
 def hopCount (h : HopPath) : Nat := h.length
 
-/-- the closure folded by `hop_count_path_selection` -/
+/-- the closure folded by `hop_count_path_selection` (aspath.rs:119-131, as
+repaired by F26): a `Hop::Asn` and an AS_SET segment hop count 1, an
+AS_SEQUENCE held as one segment hop counts `seg.asns().count()` (every ASN it
+contains), confederation segments count 0. -/
 def selStep (sum : Nat) (hop : Hop) : Nat :=
   match hop with
   | .asn _ => sum + 1
-  | .seg s => if s.ty = 1 then sum + 1 else sum
+  | .seg s => if s.ty = 1 then sum + 1 else if s.ty = 2 then sum + s.asns.length else sum
 
-/-- mirrors aspath.rs:114 `hop_count_path_selection` (a left fold) -/
+/-- mirrors aspath.rs:118 `hop_count_path_selection` (a left fold) -/
 def hopCountSel (h : HopPath) : Nat := h.foldl selStep 0
+
+/-- mirrors aspath.rs:1160 `PartialEq for Hop`: `Asn` against `Asn`, `Segment`
+against `Segment` (`Segment::eq`, width-blind), anything else differs. -/
+def hopEq : Hop → Hop → Bool
+  | .asn a, .asn b => a == b
+  | .seg s, .seg t => segEq s t
+  | _, _ => false
+
+/-- the derived `PartialEq for HopPath` (aspath.rs:65): `Vec<Hop>` equality,
+element by element with `Hop::eq`. -/
+def hopPathEq : HopPath → HopPath → Bool
+  | [], [] => true
+  | x :: xs, y :: ys => hopEq x y && hopPathEq xs ys
+  | _, _ => false
 
 /-- mirrors aspath.rs:551 `is_single_sequence` -/
 def isSingleSequence (four : Bool) (bs : Bytes) : Bool :=
